@@ -34,6 +34,7 @@ pub struct Report {
     pub sets: BTreeMap<String, BTreeSet<String>>,
     pub exhaustive_parts: Vec<String>,
     pub max_samples: usize,
+    pub seen_sigs: HashSet<String>,
 }
 
 impl Report {
@@ -94,12 +95,19 @@ impl Report {
         shard: u64,
         case: u64,
     ) {
-        // keep memory bounded: at most 200 violations retained, all counted
+        // every violation is counted; one witness is retained per distinct
+        // (rule, backend, signature), up to 3000 distinct signatures
         self.count("violations_total", 1);
-        if self.violations.len() < 200 {
+        let sig = sig.into();
+        let key = format!("{rule}\u{1}{backend}\u{1}{sig}");
+        if self.seen_sigs.contains(&key) {
+            return;
+        }
+        if self.violations.len() < 3000 {
+            self.seen_sigs.insert(key);
             self.violations.push(Violation {
                 rule: rule.to_string(),
-                sig: sig.into(),
+                sig,
                 backend: backend.to_string(),
                 detail,
                 shard,
@@ -127,7 +135,8 @@ impl Report {
             }
         }
         for v in other.violations {
-            if self.violations.len() < 400 {
+            let key = format!("{}\u{1}{}\u{1}{}", v.rule, v.backend, v.sig);
+            if self.violations.len() < 3000 && self.seen_sigs.insert(key) {
                 self.violations.push(v);
             }
         }
